@@ -236,6 +236,7 @@ func newRuleguardChecker(info *linter.CheckerInfo, ctx *linter.CheckerContext) (
 					return nil, fmt.Errorf("ruleguard init error: %+v", err)
 				}
 				log.Printf("ruleguard init error, skip %s: %+v", filename, err)
+				continue
 			}
 			loaded++
 		}
